@@ -91,7 +91,7 @@ impl Report {
 pub fn run_with_watchdog(out: &str, stall_s: u64, work: impl FnOnce() -> Report + Send + 'static) {
     let out_path = out.to_string();
     let (tx, rx) = std::sync::mpsc::channel();
-    std::thread::Builder::new().stack_size(256 << 20).spawn(move || { let r = work(); let _ = tx.send(r); }).unwrap();
+    std::thread::Builder::new().stack_size(256 << 20).spawn(move || { match guarded(work) { Ok(r) => { let _ = tx.send(r); } Err(m) => { eprintln!("harness bug: uncaught panic in worker: {}", m); } } }).unwrap();
     let mut last = HEARTBEAT.load(Ordering::Relaxed);
     let mut idle = 0u64;
     loop {
